@@ -29,20 +29,6 @@ SRC = 'odl/space/npy_tensors.py'
 OPND = {'x1': 'X1', 'x2': 'X2', 'out': 'OUT'}
 ARR = {'x1_arr': 'X1', 'x2_arr': 'X2', 'out_arr': 'OUT'}
 
-PIN_BLAS_APPLICABLE = '''
-def _blas_is_applicable(*args):
-    if any(x.dtype != args[0].dtype for x in args[1:]):
-        return False
-    elif any(x.dtype not in _BLAS_DTYPES for x in args):
-        return False
-    elif not (all(x.flags.f_contiguous for x in args) or
-              all(x.flags.c_contiguous for x in args)):
-        return False
-    elif any(x.size > np.iinfo('int32').max for x in args):
-        return False
-    else:
-        return True
-'''
 PIN_BLAS_DTYPES = "(np.dtype('float32'), np.dtype('float64'), np.dtype('complex64'), np.dtype('complex128'))"
 
 PIN_FALLBACK_BIND = [
@@ -253,6 +239,54 @@ def fallback(fn, roles):
     return '[' + '; '.join(ps(s) for s in body[:-1]) + ']'
 
 
+# ------------------------------------------------------------------ _blas_is_applicable
+GEN_ATOMS = {
+    'x.dtype != args[0].dtype for x in args[1:]': ('any', '(negb same_dtype)'),
+    'x.dtype not in _BLAS_DTYPES for x in args': ('any', '(negb blas_dtype)'),
+    'x.dtype in _BLAS_DTYPES for x in args': ('all', 'blas_dtype'),
+    "x.size > np.iinfo('int32').max for x in args": ('any', '(size >? 2147483647)'),
+}
+FLAG_GENS = {'x.flags.f_contiguous for x in args': 'snd', 'x.flags.c_contiguous for x in args': 'fst'}
+
+
+def btest(node):
+    """bool expression of _blas_is_applicable over (same_dtype, blas_dtype, size, flags)"""
+    if isinstance(node, ast.BoolOp):
+        k = ' && ' if isinstance(node.op, ast.And) else ' || '
+        return '(' + k.join(btest(v) for v in node.values) + ')'
+    if isinstance(node, ast.UnaryOp) and isinstance(node.op, ast.Not):
+        return '(negb %s)' % btest(node.operand)
+    if isinstance(node, ast.Call) and isinstance(node.func, ast.Name) and node.func.id in ('any', 'all') \
+            and len(node.args) == 1 and isinstance(node.args[0], ast.GeneratorExp) and not node.keywords:
+        g = ast.unparse(node.args[0]).strip('()')
+        if g in FLAG_GENS:
+            return '(%s %s flags)' % ('forallb' if node.func.id == 'all' else 'existsb', FLAG_GENS[g])
+        if g in GEN_ATOMS and GEN_ATOMS[g][0] == node.func.id:
+            # the per-array tests are uniform for arrays of one tensor space (same dtype, same size)
+            return GEN_ATOMS[g][1]
+    fail(node, 'test of _blas_is_applicable outside grammar')
+
+
+def blas_chain(body):
+    if len(body) != 1 or not isinstance(body[0], ast.If):
+        fail(body[0] if body else None, '_blas_is_applicable: expected one if/elif chain')
+    node, out = body[0], []
+
+    def ret(stmts):
+        if len(stmts) == 1 and isinstance(stmts[0], ast.Return) and isinstance(stmts[0].value, ast.Constant) \
+                and isinstance(stmts[0].value.value, bool):
+            return 'true' if stmts[0].value.value else 'false'
+        fail(stmts[0] if stmts else None, 'expected return True/False')
+    txt = ''
+    while True:
+        txt += 'if %s then %s else ' % (btest(node.test), ret(node.body))
+        if len(node.orelse) == 1 and isinstance(node.orelse[0], ast.If):
+            node = node.orelse[0]
+            continue
+        txt += ret(node.orelse)
+        return txt
+
+
 def translate(repo=None):
     repo = repo or REPO
     src = open(os.path.join(repo, SRC)).read()
@@ -272,12 +306,11 @@ def translate(repo=None):
     if len(consts) != 3 or len(fns) != 2:
         fail(None, 'thresholds, _BLAS_DTYPES, _lincomb_impl or _blas_is_applicable not found')
 
-    # ---- _blas_is_applicable: pinned
+    # ---- _blas_is_applicable: translated (if/elif chain of tests over the argument arrays)
     bf = fns['_blas_is_applicable']
-    pin = ast.parse(PIN_BLAS_APPLICABLE).body[0]
-    bf_body = strip_doc(bf.body)
-    if ast.dump(bf.args) != ast.dump(pin.args) or [ast.dump(s) for s in bf_body] != [ast.dump(s) for s in pin.body]:
-        fail(bf, '_blas_is_applicable changed (pinned)')
+    if ast.unparse(bf.args) != '*args':
+        fail(bf, '_blas_is_applicable signature changed')
+    blas_app = blas_chain(strip_doc(bf.body))
 
     fn = fns['_lincomb_impl']
     if [a.arg for a in fn.args.args] != ['a', 'x1', 'b', 'x2', 'out'] or fn.args.defaults:
@@ -353,10 +386,11 @@ def translate(repo=None):
          'Definition fallback_copy : list pstmt := %s.' % f_copy, '',
          'Definition blas_ravel_order (out_f_contiguous : bool) : order :=',
          '  if out_f_contiguous then %s else %s.' % (o_then, o_else), '',
-         '(* pinned copy of _blas_is_applicable for three arrays of one tensor space (same dtype):',
-         '   dtype in _BLAS_DTYPES, all F-contiguous or all C-contiguous, sizes within int32 *)',
-         'Definition blas_applicable (blas_dtype : bool) (size : Z) (flags : list (bool * bool)) : bool :=',
-         '  blas_dtype && (forallb snd flags || forallb fst flags) && (size <=? 2147483647).', '',
+         '(* _blas_is_applicable for the three arrays (x1, x2, out) of one tensor space:',
+         '   same_dtype = all dtypes equal; blas_dtype = dtype in _BLAS_DTYPES (pinned: float32/64, complex64/128);',
+         '   flags = (c_contiguous, f_contiguous) per array *)',
+         'Definition blas_applicable (same_dtype blas_dtype : bool) (size : Z) (flags : list (bool * bool)) : bool :=',
+         '  %s.' % blas_app, '',
          'Definition alias_tree : list stmt :=',
          '  ' + tree_txt + '.', '']
     return '\n'.join(o) + '\n'
